@@ -140,6 +140,15 @@ pub fn error_parts(e: &Error) -> (String, String) {
     }
 }
 
+/// Strings are rendered from their bytes: a defective tree can hand out a `str` that is not UTF-8.
+pub fn render_str(s: &str) -> String {
+    let b = s.as_bytes();
+    match std::str::from_utf8(b) {
+        Ok(t) => format!("{:?}", t),
+        Err(_) => format!("<invalid utf-8 {:02x?}>", &b[..b.len().min(48)]),
+    }
+}
+
 fn render_float(f: f64) -> String {
     if f.is_nan() {
         "NaN".to_string()
@@ -191,7 +200,7 @@ pub fn render_value(v: Object, dead: &mut Vec<String>) -> String {
                     }
                     match t {
                         shadow::KIND_FLOAT => out.push_str(&render_float(o.as_f64())),
-                        shadow::KIND_STRING => out.push_str(&format!("{:?}", o.as_str())),
+                        shadow::KIND_STRING => out.push_str(&render_str(o.as_str())),
                         _ => {
                             if let Some(ix) = ids.get(&addr) {
                                 out.push_str(&format!("^#{}", ix));
